@@ -12,7 +12,10 @@ import (
 	"unicode/utf8"
 
 	"servitor/ui"
+	"servitor/verifmain"
 	"servitor/verifshim/simexec"
+	"servitor/verifshim/simos"
+	"servitor/verifshim/simterm"
 )
 
 // UISession plays main.go around a real ui.State: one goroutine per key press, an optional
@@ -52,7 +55,11 @@ func newUISession(r *Run, w, h int) *UISession {
 	u := &UISession{r: r, w: w, h: h}
 	u.returned2 = [2]int{w, h}
 	u.sizes = append(u.sizes, [2]int{w, h})
-	u.st = ui.NewState(w, h, u.sink)
+	// frames reach the terminal the way they do in the real program: ui.State calls main.go's
+	// printRaw, which writes to standard output; what arrives there is what the terminal gets
+	simterm.SetSize(w, h)
+	simos.SetOutput(u.terminal)
+	u.st = ui.NewState(w, h, verifmain.PrintRaw)
 	simexec.SetHandler(func(rec simexec.Record) simexec.Outcome {
 		u.mu.Lock()
 		u.execs = append(u.execs, rec)
@@ -78,7 +85,7 @@ func callerOfSinkAt(skip int) string {
 	for {
 		fr, more := frames.Next()
 		fn := fr.Function
-		if strings.HasPrefix(fn, "servitor/") && !strings.HasPrefix(fn, "servitor/verifs") {
+		if strings.HasPrefix(fn, "servitor/") && !strings.HasPrefix(fn, "servitor/verif") {
 			fn = strings.TrimPrefix(fn, "servitor/")
 			names = append(names, fn)
 		}
@@ -96,6 +103,41 @@ func callerOfSinkAt(skip int) string {
 		return names[0]
 	}
 	return "?"
+}
+
+// terminal receives the bytes written to the terminal. A frame is drawn by homing the cursor
+// and erasing the screen (any spelling of CSI H / CSI J in front of the text); rows are separated
+// by CR LF since the terminal is in raw mode. What follows the preamble, with CR LF read as a
+// line break, is the frame as the terminal shows it: a line feed too many scrolls the screen
+// exactly like a line too many in the frame.
+func (u *UISession) terminal(fd int, b []byte) {
+	text := string(b)
+	homed, erased := false, false
+	for strings.HasPrefix(text, "\x1b[") {
+		j := 2
+		for j < len(text) && (text[j] >= '0' && text[j] <= '9' || text[j] == ';') {
+			j++
+		}
+		if j >= len(text) || (text[j] != 'H' && text[j] != 'f' && text[j] != 'J') {
+			break
+		}
+		if text[j] == 'J' {
+			erased = true
+		} else {
+			homed = true
+			for _, p := range strings.Split(text[2:j], ";") {
+				if p != "" && p != "0" && p != "1" {
+					homed = false
+				}
+			}
+		}
+		text = text[j+1:]
+	}
+	frame := strings.ReplaceAll(text, "\r\n", "\n")
+	if (!homed || !erased) && !u.r.S.Draining() {
+		u.r.Violate("C16", "M-height", "frame-not-drawn-from-a-cleared-home-position", fmt.Sprintf("the terminal received %q...: a frame that is not preceded by cursor-home and erase-screen is drawn below whatever was there and scrolls the screen", trunc(string(b), 60)))
+	}
+	u.sink(frame)
 }
 
 func (u *UISession) sink(frame string) {
